@@ -62,6 +62,9 @@ func Wrap(kw string, depth int, leaf jx.Obj, key string) jx.Obj {
 			cur = jx.Obj{"description": d, "not": cur}
 		}
 	}
+	if RefSiblings && depth > 0 {
+		cur["$ref"] = "#/definitions/target1"
+	}
 	return cur
 }
 
@@ -287,4 +290,17 @@ func plantedSpecs() []plantedSpec {
 func PlantedDoc(i int, kind, path, method, key string) Planted {
 	sp := plantedSpecs()[i]
 	return Planted{Name: sp.name + "/" + kind, Doc: sp.mk(kind, i, path, method, key)}
+}
+
+// RefSiblings, when set, makes Wrap put a "$ref" next to the outermost holder keyword: the schemas, $refs, patterns and
+// enums below are then siblings of a $ref (ignored by a resolver, but still part of the document).
+var RefSiblings bool
+
+// PlantedDocRefSiblings is PlantedDoc with the planted structure hanging next to a $ref.
+func PlantedDocRefSiblings(i int, kind, path, method, key string) Planted {
+	RefSiblings = true
+	defer func() { RefSiblings = false }()
+	p := PlantedDoc(i, kind, path, method, key)
+	p.Name += "/ref-siblings"
+	return p
 }
